@@ -409,7 +409,7 @@ def prov_h_inherit(repo, tier="quick"):
         (obs.append(ob_ok("PROV.h-inherit", fi, st, construct="graph.nodes[h][attr] = graph.nodes[neighbour(h)][attr]", instance="copy",
                           reason="each copied attribute comes from the atom the hydrogen is bonded to")) if ok else
          obs.append(ob_fail("PROV.h-inherit", fi, st, construct="graph.nodes[h][attr] = %s" % show(val), instance="copy", reason=why)))
-        gs = guards_of(fi, n.id)
+        gs = guards_of(fi, n.id, named=True)
         texts = [(ast.unparse(t), pol) for t, pol, _ in gs]
         # truth table of the controlling guards over (element, single_h_frag): the copy happens exactly for hydrogens that are not
         # stand-alone hydrogen fragments
